@@ -751,6 +751,8 @@ class Translator:
             a = self.as_bool(self.ev(n.args[0]))
             if z3.is_false(z3.simplify(a)):
                 return z3.BoolVal(True)
+            if not any(_contains(a, q) for q in self.qvars) and self.ctx.known(a) is False:
+                return z3.BoolVal(True)      # excluded by the path condition: the consequent need not even be well defined here
             return z3.Implies(a, self.as_bool(self.ev(n.args[1])))
         if f == 'iff':
             return self.as_bool(self.ev(n.args[0])) == self.as_bool(self.ev(n.args[1]))
